@@ -100,8 +100,11 @@ def run_A(item, rec):
             for ssa in skel.all_trees(n):
                 case = dict(kind="A", inputs=list(inputs), output=output, ssa=[list(p) for p in ssa], ones=list(ones))
 
-                def harness(ctx, ssa=ssa, ones=ones, case=case):
+                cur = {}
+
+                def harness(ctx, ssa=ssa, ones=ones, case=case, cur=cur):
                     size = {c: (1 if c in ones else symx.sym_int("d_" + c, 2)) for c in labels}
+                    cur["size"] = size
                     tree = ContractionTree.from_path(inputs, output, size, ssa_path=ssa)
                     hg = HyperGraph(inputs, output, size)
                     cp = PB.ContractionProcessor(inputs, output, size, track_flops=True)
@@ -161,7 +164,8 @@ def run_A(item, rec):
 
                     rec.refute(ctx, z3.Or(bads), "simulators agree per step", viol)
 
-                rec.add_explore(symx.explore(harness, max_paths=200))
+                rec.add_explore(symx.explore(rec.guard_harness(harness, "simulators agree per step", lambda m, case=case, cur=cur, ssa=ssa: dict(
+                    case=case, size={c: symx.eval_model(m, cur["size"][c]) for c in labels}, signature=["C18A", list(inputs), output, str(ssa)])), max_paths=200))
         rec.sample(dict(part="A", inputs=list(inputs), output=output, sizes="symbolic >= 2", simulators=["tree", "hypergraph", "processor", "annealing evaluator"]))
     rec.validated += 1
 
@@ -206,11 +210,14 @@ def run_B(item, rec):
             # ---- B1: symbolic sizes, temperature 0 (no logs of symbolic scores)
             case = dict(kind="B1", inputs=list(inputs), output=output)
 
-            def harness(ctx, case=case):
+            cur = {}
+
+            def harness(ctx, case=case, cur=cur):
                 PB.math = math_proxy()
                 # N >= 4: only two sizes are symbolic (first label and the batch label), the rest are 2/3
                 symb = set(labels) if n <= 3 else {labels[0], labels[-1]}
                 size = {c: (symx.sym_int("d_" + c, 2) if c in symb else 2 + (k % 2)) for k, c in enumerate(labels)}
+                cur["size"] = size
                 path, rep = PB.optimize_random_greedy_track_flops(inputs, output, size, ntrials=1, costmod=1.0, temperature=0.0, seed=7, use_ssa=True)
                 tree = ContractionTree.from_path(inputs, output, size, ssa_path=path, autocomplete=True)
                 ok_struct = tree.is_complete()
@@ -229,7 +236,8 @@ def run_B(item, rec):
                 rec.refute(ctx, z3.Or(bads), "random-greedy reported flops == flops of returned path (symbolic sizes, T=0)", viol)
 
             if n >= 2:
-                rec.add_explore(symx.explore(harness, max_paths=3000, deadline_s=60))
+                rec.add_explore(symx.explore(rec.guard_harness(harness, "random-greedy reported flops == flops of returned path (symbolic sizes, T=0)", lambda m, case=case, cur=cur: dict(
+                    case=case, size={c: symx.eval_model(m, cur["size"][c]) for c in labels}, path=[], signature=["C18B1", list(inputs), output], finding_key=None)), max_paths=3000, deadline_s=60))
             PB.math = orig_math
 
             # ---- B2: concrete sizes, symbolic Gumbel noise / costmod / temperature
@@ -253,7 +261,8 @@ def run_B(item, rec):
                     rec.refute(ctx, bad, "random-greedy reported flops == flops of returned path (symbolic noise)", viol)
 
                 if n >= 2 and (n <= 3 or variant == 0):
-                    rec.add_explore(symx.explore(harness2, max_paths=(1500 if n <= 3 else 400), deadline_s=(40 if n <= 3 else 15)))
+                    rec.add_explore(symx.explore(rec.guard_harness(harness2, "random-greedy reported flops == flops of returned path (symbolic noise)", lambda m, case=case: dict(
+                        case=case, path=[], signature=["C18B2", list(inputs), output, sorted(case["size"].items())])), max_paths=(1500 if n <= 3 else 400), deadline_s=(40 if n <= 3 else 15)))
                 PB.GumbelBatchedGenerator = orig_g
 
                 # ---- B3: the optimizer objects
@@ -277,7 +286,8 @@ def run_B(item, rec):
                                               signature=["C18B4", list(inputs), output, sorted(size.items())]), reach_probe=False)
 
                 if n >= 2 and variant == 0:
-                    rec.add_explore(symx.explore(harness3, max_paths=(600 if n <= 3 else 150), deadline_s=(40 if n <= 3 else 10)))
+                    rec.add_explore(symx.explore(rec.guard_harness(harness3, "RandomGreedyOptimizer.best_flops == flops of its tree", lambda m, case=case: dict(
+                        case=dict(case, kind="B3"), signature=["C18B3", list(inputs), output, sorted(case["size"].items())])), max_paths=(600 if n <= 3 else 150), deadline_s=(40 if n <= 3 else 10)))
                 PB.GumbelBatchedGenerator = orig_g
             rec.sample(dict(part="B", inputs=list(inputs), output=output, noise="every Gumbel draw a solver variable", sizes="symbolic (T=0) / concrete (T>0)"))
     finally:
